@@ -150,6 +150,7 @@ fn one_reservoir_opt(cx: &mut Ctx, k: usize, seed: u64, parts: &[Vec<i64>], sh: 
     let mut toks = vec![];
     sh.enc(&mut toks);
     let args = format!("{k} {seed} {} {} {}", enc_ints(&vals, ","), enc_usizes(&sizes), toks.join(" "));
+    crate::ctx::breadcrumb(&format!("RESERVOIR {args}"));
     let r1 = real_reservoir(k, seed, parts, sh);
     let r2 = real_reservoir(k, seed, parts, sh);
     let ans = match &r1 { Ok((s, _)) => format!("OK {}", enc_ints(s, ",")), Err(_) => "PANIC".to_string() };
@@ -566,6 +567,7 @@ fn one_pipe(cx: &mut Ctx, e: Entry, k: usize, seed: u64, parts: &[usize], pre: P
     let frows: Vec<(i64, i64)> = rows.iter().flat_map(|r| pre.apply(r.1).into_iter().map(|v| (r.0, v))).collect();
     let n = if e.keyed() { frows.len() } else { fxs.len() };
     let data = if e.keyed() { enc_pairs(rows) } else { enc_ints(xs, ",") };
+    crate::ctx::breadcrumb(&format!("SAMPLE-PIPE entry={e:?} k={k} seed={seed} parts={parts:?} join={join} data={data}"));
     let mut labels: Vec<String> = vec!["seq".into()];
     let mut modes: Vec<Mode> = vec![Mode::Seq];
     for p in parts { labels.push(format!("p{p}")); modes.push(Mode::Par(*p)); }
